@@ -266,7 +266,9 @@ def _load_mwfn_low(lit: LineIterator) -> dict:
 
     # get number of basis & molecular orbitals (MO)
     # Note: MWFN includes virtual orbitals, so num_mo equals number independent basis functions
-    num_basis = data["Nindbasis"]
+    # Every orbital is expanded in all Nbasis functions; there are Nindbasis orbitals
+    # (fewer than Nbasis when linearly dependent combinations were removed).
+    num_basis = data["Nbasis"]
     num_mo = data["Nindbasis"]
     if data["mo_kind"] == "unrestricted":
         num_mo *= 2
